@@ -592,6 +592,9 @@ def _filter_build(case):
     mask = None
     if g['maskfrac'] > 0:
         mask = (rs.rand(nT, nx) < g['maskfrac']).astype(np.int32) * rs.randint(1, 5, size=(nT, nx)).astype(np.int32)
+        if g.get('negmask'):
+            # any non-zero flag masks a pixel: -1 (all bits) and the sign bit of an int32 mask as well
+            mask = np.where(mask != 0, np.where(rs.rand(nT, nx) < 0.5, np.int32(-1), np.int32(-2 ** 31)), 0).astype(np.int32)
         for t in range(nT):
             if mask[t].all():
                 mask[t, rs.randint(nx)] = 0
@@ -619,7 +622,7 @@ def _filter_cases(ctx):
                'flux': rng.choice(['const', 'positive', 'lines', 'signed']), 'const': [rng.uniform(-5, 40) for _ in range(nT)],
                'maskfrac': rng.choice([0.0, 0.05, 0.3, 0.6]), 'mask_ends': rng.choice([0, 0, 1, 3]) if nx >= 12 else 0,
                'wave_as': rng.choice(['image', 'image', 'wset']), 'toair': rng.random() < 0.25,
-               'junk': rng.choice(['big', 'nan', 'inf']), 'descending': rng.random() < 0.3}
+               'junk': rng.choice(['big', 'nan', 'inf']), 'descending': rng.random() < 0.3, 'negmask': rng.random() < 0.25}
         cases.append({'stream': 'filter', 'gen': gen})
     return cases
 
